@@ -200,6 +200,17 @@ func c01Case(w *core.Worker, i int) {
 	}{
 		{"error", "", 1}, {"exit", "EXIT;", 0}, {"exit3", "EXIT 3;", 3}, {"trigger", "TRIGGER ERROR 5 'boom';", 5},
 	}
+	// the same terminations reached through another statement: inside EXECUTE, a sourced file, nested blocks (every third position)
+	exitFile := filepath.Join(w.Work, "exit.sql")
+	_ = os.WriteFile(exitFile, []byte("PRINT 'in sourced file';\nEXIT;\n"), 0644)
+	nested := []struct {
+		name, stmt string
+		code       int
+	}{
+		{"exit-in-execute", "EXECUTE 'EXIT;';", 0}, {"exit3-in-execute", "EXECUTE 'EXIT 3;';", 3}, {"exit-in-source", "SOURCE `" + exitFile + "`;", 0},
+		{"exit-in-blocks", "IF 1 = 1 THEN WHILE TRUE DO EXIT; END WHILE; END IF;", 0}, {"error-in-execute", "EXECUTE 'UPDATE f1 SET c1 = 1 / 0;';", 1},
+		{"trigger-in-function", "DECLARE boom9 FUNCTION () AS BEGIN TRIGGER ERROR 5 'boom'; RETURN 1; END; VAR @boom9 := boom9();", 5},
+	}
 	// every one of these either fails or (on an empty table) changes nothing
 	failing := []string{"SELECT * FROM no_such_table;", "INSERT INTO f1 VALUES (1);", "UPDATE f1 SET c1 = 1 / 0;", "DELETE FROM f1 WHERE nofield = 1;", "INSERT INTO untouched SELECT 1, 2, 3 FROM f1;", "UPDATE f1 SET c1 = (SELECT id FROM untouched x) WHERE id < 100000;"}
 	// a COMMIT that fails while encoding: a JSON table gets a column whose name is not a valid JSON path
@@ -213,17 +224,29 @@ func c01Case(w *core.Worker, i int) {
 		}
 	}
 	for pos := 0; pos <= len(p.Units); pos++ {
-		for _, k := range kinds {
+		ks := kinds
+		if pos%3 == i%3 {
+			ks = append(append(ks[:0:0], kinds...), nested...)
+		}
+		for _, k := range ks {
 			stmt := k.stmt
 			if k.name == "error" {
 				stmt = failing[r.Intn(len(failing))]
 			}
-			units := append(append(append([]string{}, p.Units[:pos]...), stmt), p.Units[pos:]...)
+			units := append(append([]string{}, p.Units[:pos]...), stmt)
+			if k.name != "commitfail" {
+				units = append(units, "PRINT '##CONTINUED';") // nothing after the terminating statement may run
+			}
+			units = append(units, p.Units[pos:]...)
 			variant := fmt.Sprintf("%s@%d", k.name, pos)
 			d, vr := runTx(w, base, strings.Join(units, "\n"), nil, "var")
 			ended := vr.res.Code == k.code && vr.res.Signal == 0
 			if k.name == "error" || k.name == "commitfail" {
 				ended = vr.res.Code != 0
+			}
+			// (a failing statement is not certain to fail: on an empty table it evaluates nothing)
+			if strings.Contains(vr.res.Stdout, "##CONTINUED") && (strings.HasPrefix(k.name, "exit") || strings.HasPrefix(k.name, "trigger")) {
+				w.Violation("continued-after-termination", fmt.Sprintf("[%s] the procedure went on after %q (exit %d)", variant, stmt, vr.res.Code), txReplay{Files: small(p.Files), Program: strings.Join(units, "\n"), Variant: variant})
 			}
 			txJudge(w, p, d, vr, initial, baseSnap, variant+" "+stmt, nil)
 			w.Note("termination_kinds", k.name)
